@@ -1,7 +1,7 @@
 (* C13 / C01: every accepted near-earth element set with e0 <= 0.39 IS answered at its epoch, and at every time when it is
    drag-free (B* = 0).  At tau = 0 or B* = 0 the drag polynomial and the drag terms of the eccentricity vanish:
    a = a0'', e = e0; the long-period term |ayNL| is at most A30 / (4 k2 a (1 - e0^2)); with the constructor's perigee guard
-   a0'' (1 - e0) >= 1 + 220 / XKMPER this gives eL^2 <= 4/25 and a (1 - eL) >= 1.005, i.e. the orbit is healthy in the sense of
+   a0'' (1 - e0) >= 1 + 220 / XKMPER this gives eL^2 <= 4/25 and a (1 - eL) >= 1.03, i.e. the orbit is healthy in the sense of
    P_Sgp4Answered, so the regenerated propagation returns a state.  Only conditions on the INPUT remain. *)
 From Coq Require Import Reals Lra Lia.
 From Coquelicot Require Import Rcomplements.
@@ -88,7 +88,7 @@ Section AtEpoch.
   Qed.
 
   Theorem healthy_when_frozen :
-    - (1 / 1000) <= e_unclamped El T /\ eL2 El T ec <= 4 / 25 /\ 1005 / 1000 <= a El T * (1 - sqrt (eL2 El T ec)).
+    - (1 / 1000) <= e_unclamped El T /\ eL2 El T ec <= 4 / 25 /\ 103 / 100 <= a El T * (1 - sqrt (eL2 El T ec)).
   Proof.
     pose proof (leaf1_He _ _ _ _ _ _ _ Hleaf) as He. pose proof (leaf1_e_gt _ _ _ _ _ _ _ Hleaf) as Hegt.
     pose proof perigee_guard as Hp.
@@ -124,7 +124,8 @@ Section AtEpoch.
   Theorem answered_when_frozen : exists j, (j <= 5)%nat /\ GB gen_nn1_prop_outcome = PropOk j.
   Proof.
     destruct healthy_when_frozen as [H1 [H2 H3]].
-    exact (answered_when_healthy _ _ _ _ _ _ _ ts Hleaf H1 H2 H3).
+    assert (H3' : 1005 / 1000 <= a El T * (1 - sqrt (eL2 El T ec))) by lra.
+    exact (answered_when_healthy _ _ _ _ _ _ _ ts Hleaf H1 H2 H3').
   Qed.
 End AtEpoch.
 
@@ -155,7 +156,7 @@ Section AtEpoch3.
   Qed.
 
   Theorem healthy_when_frozen3 :
-    - (1 / 1000) <= e_unclamped El T /\ eL2 El T ec <= 4 / 25 /\ 1005 / 1000 <= a El T * (1 - sqrt (eL2 El T ec)).
+    - (1 / 1000) <= e_unclamped El T /\ eL2 El T ec <= 4 / 25 /\ 103 / 100 <= a El T * (1 - sqrt (eL2 El T ec)).
   Proof.
     pose proof (leaf3_He _ _ _ _ _ _ _ Hleaf) as He. pose proof (leaf3_e_le _ _ _ _ _ _ _ Hleaf) as Hele.
     pose proof perigee_guard3 as Hp.
@@ -188,7 +189,8 @@ Section AtEpoch3.
   Theorem answered_when_frozen3 : exists j, (j <= 5)%nat /\ GB gen_nn3_prop_outcome = PropOk j.
   Proof.
     destruct healthy_when_frozen3 as [H1 [H2 H3]].
-    exact (answered_when_healthy3 _ _ _ _ _ _ _ ts Hleaf H1 H2 H3).
+    assert (H3' : 1005 / 1000 <= a El T * (1 - sqrt (eL2 El T ec))) by lra.
+    exact (answered_when_healthy3 _ _ _ _ _ _ _ ts Hleaf H1 H2 H3').
   Qed.
 End AtEpoch3.
 
